@@ -403,3 +403,38 @@ Section Resolver.
   (* Resolve, single registry (hasMulti stays false) *)
   Definition resolve (fuel : nat) (root : vkey) : res graph := snd (resolve_full fuel root).
 End Resolver.
+
+(* ------------------------------------------------------------------ a client given by finite tables
+   (the recorded calls of a Go run, or a hand-written universe); a call the table lacks is EMissing *)
+Record tables := mkT {
+  t_vers : list (vkey * res version);
+  t_lists : list (pkey * res (list version));
+  t_reqs : list (vkey * res (list reqver));
+  t_simple : list (bytes * Z);
+  t_match : list ((bytes * bytes) * bool);
+  t_less : list ((vkey * vkey) * bool) }.
+
+Definition bb_dec : forall a b : bytes * bytes, {a = b} + {a <> b}.
+Proof. decide equality; apply bytes_dec. Defined.
+Definition vv_dec : forall a b : vkey * vkey, {a = b} + {a <> b}.
+Proof. decide equality; apply vkey_dec. Defined.
+
+Definition tc_version (t : tables) (k : vkey) : res version :=
+  match aget vkey_dec (t_vers t) k with Some r => r | None => Err EMissing end.
+Definition tc_versions (t : tables) (k : pkey) : res (list version) :=
+  match aget pkey_dec (t_lists t) k with Some r => r | None => Err EMissing end.
+Definition tc_requirements (t : tables) (k : vkey) : res (list reqver) :=
+  match aget vkey_dec (t_reqs t) k with Some r => r | None => Err EMissing end.
+Definition tc_simple (t : tables) (r : bytes) : res bool :=
+  match aget bytes_dec (t_simple t) r with
+  | Some s => if (s =? 2)%Z then Err EOther else Ok (s =? 1)%Z
+  | None => Err EMissing
+  end.
+Definition tc_match (t : tables) (r v : bytes) : bool :=
+  match aget bb_dec (t_match t) (r, v) with Some b => b | None => false end.
+Definition tc_less (t : tables) (a b : vkey) : bool :=
+  match aget vv_dec (t_less t) (a, b) with Some x => x | None => false end.
+
+Definition table_resolve (t : tables) (fuel : nat) (root : vkey) : res graph :=
+  resolve (tc_version t) (tc_versions t) (tc_requirements t) (tc_simple t) (tc_match t) (tc_less t) fuel root.
+
